@@ -1011,7 +1011,7 @@ func run(c Case) execResult {
 				}
 				fan := newFanSched(srv, o.Off, fsz, steps)
 				remote.VerifSetCacheAtHook(fan.hook)
-				wd := time.AfterFunc(1500*time.Millisecond, fan.abandon)
+				wd := time.AfterFunc(3*time.Second, fan.abandon)
 				err := b.Cache(o.Off, o.N, cacheOpts(o.Opt)...)
 				wd.Stop()
 				remote.VerifSetCacheAtHook(nil)
